@@ -31,6 +31,9 @@ DecVectors ==
   \cup {<<94, 94, l, 233>> : l \in Range(MarkerLetters)} \cup {<<94, 67, 232, 94, 94, 76, 232>>, <<94, 118, 233>>, <<94>>, <<233, 94>>, <<94, 94>>, <<94, 56>>, <<94, 67, 232, 94, 56, 232>>}
   \* a caret followed by every byte value, alone and followed by a Latin-1 high byte
   \cup {<<94, b>> : b \in 0..255} \cup {<<94, b, 233>> : b \in 1..255}
+  \* a lone (non-marker) caret directly before a pair whose trail byte looks like a caret, followed by a code page letter
+  \cup UNION {{M(l) \o <<94, DBPairs[Page[l]][i][1], DBPairs[Page[l]][i][2], 76, 65>> : i \in {j \in 1..Len(DBPairs[Page[l]]) : DBPairs[Page[l]][j][2] = 94}} : l \in {74, 83, 75, 72}}
+  \cup UNION {{M(l) \o <<94, 49, DBPairs[Page[l]][i][1], DBPairs[Page[l]][i][2], 67, 65>> : i \in {j \in 1..Len(DBPairs[Page[l]]) : DBPairs[Page[l]][j][2] = 94}} : l \in {74, 83, 75, 72}}
   \* byte patterns that look like byte-order marks: at the start and at the start of a segment
   \cup {<<255, 254, 65>>, <<254, 255, 65>>, <<239, 187, 191, 65>>, <<94, 67, 255, 254, 65>>, <<94, 69, 239, 187, 191, 65>>, <<94, 76, 254, 255, 65>>}
 
